@@ -8,6 +8,7 @@ import (
 	"unsafe"
 
 	"github.com/mlange-42/arche/ecs"
+	"github.com/mlange-42/arche/generic"
 )
 
 type result struct {
@@ -549,16 +550,173 @@ func (x *World) Exec(i int, op Op) map[string]interface{} {
 		args["r"] = op.R
 		res = guard(func(r *result) {
 			x.resSeq++
-			t := &resToken{Token: x.resSeq}
-			w.Resources().Add(x.resIDs[op.R], t)
-			x.resVals[op.R] = t
-			r.ret = t.Token
+			tk := x.resSeq
+			var val interface{}
+			route := op.Api
+			if op.R > 3 {
+				route = "Resources.Add"
+			}
+			switch route {
+			case "generic.Resource.Add":
+				switch op.R {
+				case 0:
+					v := &resT0{tk}
+					g := generic.NewResource[resT0](w)
+					g.Add(v)
+					val = v
+				case 1:
+					v := &resT1{tk}
+					g := generic.NewResource[resT1](w)
+					g.Add(v)
+					val = v
+				case 2:
+					v := &resT2{tk}
+					g := generic.NewResource[resT2](w)
+					g.Add(v)
+					val = v
+				case 3:
+					v := &resT3{tk}
+					g := generic.NewResource[resT3](w)
+					g.Add(v)
+					val = v
+				}
+			case "ecs.AddResource":
+				switch op.R {
+				case 0:
+					v := &resT0{tk}
+					ecs.AddResource(w, v)
+					val = v
+				case 1:
+					v := &resT1{tk}
+					ecs.AddResource(w, v)
+					val = v
+				case 2:
+					v := &resT2{tk}
+					ecs.AddResource(w, v)
+					val = v
+				case 3:
+					v := &resT3{tk}
+					ecs.AddResource(w, v)
+					val = v
+				}
+			default:
+				switch op.R {
+				case 0:
+					val = &resT0{tk}
+				case 1:
+					val = &resT1{tk}
+				case 2:
+					val = &resT2{tk}
+				case 3:
+					val = &resT3{tk}
+				default:
+					val = &resToken{tk}
+				}
+				w.Resources().Add(x.resIDs[op.R], val)
+			}
+			x.resVals[op.R] = val
+			r.ret = tk
 		})
 	case "ResRemove":
 		args["r"] = op.R
 		res = guard(func(r *result) {
-			w.Resources().Remove(x.resIDs[op.R])
+			if op.Api == "generic.Resource.Remove" && op.R <= 3 {
+				switch op.R {
+				case 0:
+					g := generic.NewResource[resT0](w)
+					g.Remove()
+				case 1:
+					g := generic.NewResource[resT1](w)
+					g.Remove()
+				case 2:
+					g := generic.NewResource[resT2](w)
+					g.Remove()
+				case 3:
+					g := generic.NewResource[resT3](w)
+					g.Remove()
+				}
+			} else {
+				w.Resources().Remove(x.resIDs[op.R])
+			}
 			delete(x.resVals, op.R)
+		})
+	case "ResGet":
+		// ret: token of the returned value, -1 for nil; same: the exact pointer that was added
+		args["r"] = op.R
+		line["same"] = false
+		res = guard(func(r *result) {
+			var got interface{}
+			route := op.Api
+			if op.R > 3 {
+				route = "Resources.Get"
+			}
+			isNil := false
+			switch route {
+			case "generic.Resource.Get":
+				switch op.R {
+				case 0:
+					g := generic.NewResource[resT0](w)
+					v := g.Get()
+					got, isNil = v, v == nil
+				case 1:
+					g := generic.NewResource[resT1](w)
+					v := g.Get()
+					got, isNil = v, v == nil
+				case 2:
+					g := generic.NewResource[resT2](w)
+					v := g.Get()
+					got, isNil = v, v == nil
+				case 3:
+					g := generic.NewResource[resT3](w)
+					v := g.Get()
+					got, isNil = v, v == nil
+				}
+			case "ecs.GetResource":
+				switch op.R {
+				case 0:
+					v := ecs.GetResource[resT0](w)
+					got, isNil = v, v == nil
+				case 1:
+					v := ecs.GetResource[resT1](w)
+					got, isNil = v, v == nil
+				case 2:
+					v := ecs.GetResource[resT2](w)
+					got, isNil = v, v == nil
+				case 3:
+					v := ecs.GetResource[resT3](w)
+					got, isNil = v, v == nil
+				}
+			case "generic.Resource.Has":
+				has := false
+				switch op.R {
+				case 0:
+					g := generic.NewResource[resT0](w)
+					has = g.Has()
+				case 1:
+					g := generic.NewResource[resT1](w)
+					has = g.Has()
+				case 2:
+					g := generic.NewResource[resT2](w)
+					has = g.Has()
+				case 3:
+					g := generic.NewResource[resT3](w)
+					has = g.Has()
+				}
+				r.ret = b2i(has)
+				return
+			case "Resources.Has":
+				r.ret = b2i(w.Resources().Has(x.resIDs[op.R]))
+				return
+			default:
+				got = w.Resources().Get(x.resIDs[op.R])
+				isNil = got == nil
+			}
+			if isNil {
+				r.ret = -1
+				return
+			}
+			r.ret = got.(tokener).tok()
+			line["same"] = x.resVals[op.R] == got
 		})
 	case "Dump":
 		line["dump"] = map[string]interface{}{"ok": false}
